@@ -101,3 +101,13 @@ PROPS["C02"] = dict(
     rule=COMPOSE_RULE + "at least one retry happened (sequential: a retry policy alone or outermost/innermost of a stack of up to 3, maxRetries/maxAttempts in {0,1,2,3,5,unlimited}, overlapping handle and abort conditions, ReturnLastFailure, max duration unset / always exceeded / never); shared: 2..32 goroutines run different scripts through the same policy instances at once and each is compared with the sequential model of its own script, non-trivial when at least two of them retried with different scripts; real max duration (2..20 ms, unlimited retries): non-trivial when the function sampled an elapsed time beyond the max duration just before returning a failure",
     assumptions=COMPOSE_ASSUMPTIONS + ["real max-duration trials assert only the sound direction: no attempt after a failure that was returned with the max duration already elapsed"],
 )
+
+PROPS["C07"] = dict(
+    pkg="./props/c07_timeout",
+    tests=[REGRESS(), T("TestTimeoutTriple", (4, 60), (8, 1500))],
+    replay_reps=2000,
+    require_classes=["arm=inner", "arm=timeout"],
+    rule="rapid-generated trials run in concurrent batches of 96: time limit 1..20 ms, function duration in {0, limit/2, a dense band 0.8..1.2 x limit, 2 x limit, block until cancelled} realised by sleeping or spinning, sync or async, in 8 placements (alone, retry(timeout), timeout(retry), fallback(timeout), timeout(fallback), timeout(hedge), timeout(bulkhead) and timeout(limiter) with and without a pending wait); the oracle accepts either side of the race but requires the triple (result, listener count, cancellation) to be consistent and ErrExceeded never to precede the limit; non-trivial = duration in the racing band or blocking, or at least 2 attempts; distinct = hash of (placement, duration kind, limit bucket, factor, spin, error, failures, waiting, arm taken)",
+    assumptions=["timing assertions are lower bounds on monotonic time only (sandbox stalls of 50-130 ms were measured); 'listener never called' is checked after a grace period of 2 x limit + 30 ms, 'listener called / execution cancelled' is polled for up to 30 s",
+                 "the schedule is sampled by the Go scheduler and real timers, not enumerated"],
+)
